@@ -116,7 +116,7 @@ static void hev_schedule(int e, double t, int64_t prio)
 }
 
 /* ------------------------------------------------------------------ operations shared by scripts and faults */
-static int guard_of_wait(const proc *pr)
+int guard_of_wait(const proc *pr)
 {
     /* index into W.guards of the guard the in-flight op of pr would wait in, -1 if none */
     int cls = -1;
@@ -169,6 +169,7 @@ static void do_stop(int j)
     void *val = (void *)(uintptr_t)(0x90000 + (uintptr_t)j * 256u + (uintptr_t)(W.sigctr++ & 0xff));
     if (t->finished) { cmb_process_stop(t->pp, val); return; }      /* documented no-op with a warning */
     count_landing("stop", t);
+    { const int g = guard_of_wait(t); if (g >= 0 && !cmi_hashheap_is_enqueued(&W.guards[g].g->priority_queue, (uint64_t)(uintptr_t)t->pp)) PROBE("probe.grant_then_stop"); }
     TR1("stop", j);
     proc_end(t, END_STOP, val);
     t->named_this_event = true;
@@ -456,6 +457,7 @@ static void exec_step(proc *pr, const pline *l)
         const int r = (int)((uint64_t)pa(l, 1) % (uint64_t)W.nres);
         if (!pr->holds_res[r]) return;
         pr->holds_res[r] = false; W.res_holder[r] = -1;
+        pr->rel_evseq[r] = W.seq + 1;
         TR2("rel", pr->id, r);
         cmb_resource_release(W.res[r]);
         PROBE("res.release");
